@@ -1,2 +1,75 @@
+(** C01 — Rollback restores the base filesystem exactly.
+
+    The theorems are about the model's BackupFS ([step], [b_rollback] of
+    Backup/BackupFS.v and Backup/History.v, the functions the correspondence
+    check runs against the Go code) over *any* two filesystems [base] and
+    [backup] that satisfy the laws of Spec/Laws.v with respect to abstract
+    views [Vb], [Vk] (finite maps from resolved paths to nodes).  The laws are
+    hypotheses of the theorems (section variables discharged into
+    implications), not axioms; Proofs/LawsOsfs*.v proves them for the concrete
+    layering "two PrefixFS with disjoint prefixes over the OS filesystem".
+
+    Full statement of the property, for reference (not yet proved in this
+    strength; see DESIGN.md section 4 for what is missing):
+      for every initial world, every list of operations of History.op and
+      every layering: Rollback returns nil and the base view equals the initial
+      one up to the root's own metadata and directory timestamps.
+    It is *false* of the faithful model for the histories listed as known
+    findings (D12, D13, D14, D20, K2, K3): Backup/Triggers.v characterises
+    them; [C01_full_refuted_D14] below is a witness in the concrete model (the
+    same history fails on the implementation: corpus/findings/D14.case). *)
+From stdpp Require Import gmap.
+From BFS Require Import Spec.CopySpecs.
 From BFS Require Import Backup.History.
-Example placeholder_c01 : True. Proof. exact I. Qed.
+From BFS Require Import Proofs.BackupCopy Proofs.BackupTry Proofs.BackupRollback Proofs.BackupC01.
+
+(** the state in which a transaction begins satisfies the invariant *)
+Theorem C01_initial_invariant :
+  forall Vb Vk tnb tnk accb acck B0,
+  initial_inv_stmt Vb Vk tnb tnk accb acck B0.
+Proof. exact initial_inv_spec. Qed.
+Print Assumptions C01_initial_invariant.
+
+(** every covered operation (Create, Mkdir, Remove, Symlink, Chmod, Chown,
+    Lchown, Chtimes on a resolved name, not following a final symlink) keeps
+    the transaction invariant, whether it succeeds or fails *)
+Theorem C01_step_keeps_invariant :
+  forall base backup Vb Vk tnb tnk accb acck rhb rhk whb whk B0,
+  step_stmt base backup Vb Vk tnb tnk accb acck rhb rhk whb whk B0.
+Proof. exact step_spec. Qed.
+Print Assumptions C01_step_keeps_invariant.
+
+(** Rollback from *any* state satisfying the invariant (however it was
+    reached) returns nil, restores the base view (root metadata and directory
+    timestamps aside), empties the backup and the bookkeeping *)
+Theorem C01_rollback_from_invariant :
+  forall base backup Vb Vk tnb tnk accb acck rhb rhk whb whk B0,
+  rollback_stmt base backup Vb Vk tnb tnk accb acck rhb rhk whb whk B0.
+Proof. exact rollback_spec. Qed.
+Print Assumptions C01_rollback_from_invariant.
+
+(** C01 for histories of covered operations, of any length *)
+Theorem C01_rollback_restores_partial :
+  forall base backup Vb Vk tnb tnk accb acck rhb rhk whb whk B0,
+  c01_stmt base backup Vb Vk tnb tnk accb acck rhb rhk whb whk B0.
+Proof. exact c01_spec. Qed.
+Print Assumptions C01_rollback_restores_partial.
+
+(** The unrestricted statement is false of the faithful model (recorded
+    finding D14): the tree { /bk, /f = "hi", /l -> /f } in the documented
+    layering (base hides /bk, backup is PrefixFS(/bk)); Create("/l") writes
+    through the link into the untracked /f; Rollback returns nil and /f is
+    not restored. *)
+Open Scope N_scope.
+Definition w14 : world :=
+  init_link (init_file (init_dir (init_dir init_world [47] 493 0 0 1) [47;98;107] 493 0 0 2)
+                       [47;102] 420 0 0 5 [104;105]) [47;108] 0 0 6 [47;102].
+Definition c14 : config := mkConfig None [[47;98;107]] [47;98;107].
+Example C01_full_refuted_D14 :
+  exists c w ops,
+    let '(rs, w') := run_history c (ops ++ [ORollback]) w in
+    last rs MHalt = MOk ObUnit /\ st_fs (w_st w') !! [[102]] <> st_fs (w_st w) !! [[102]].
+Proof.
+  exists c14, w14, [OCreate [47;108] [120]]. vm_compute.
+  split; [reflexivity | intro H; inversion H].
+Qed.
